@@ -263,6 +263,43 @@ def necessary_conflict_spec(draw):
             'incompat': incompat, 'start': ['s'], 'conns': [], 'cons': []}
 
 
+@st.composite
+def excl_pattern_spec(draw):
+    """One connection choice with interchangeable connectors on one side (same degree specification), some of them below
+    different options of a selection choice, and 1-2 excluded pairs: the existence patterns leave the same connector
+    specifications with the exclusion at a different position"""
+    nodes = {'r': {'k': 'gen'}}
+    edges = []
+    n_opt = draw(ints(2, 3))
+    opts = [f'o{j}' for j in range(n_opt)]
+    for o in opts:
+        nodes[o] = {'k': 'gen'}
+    choices = [{'id': 'c0', 'origin': 'r', 'opts': opts}]
+    n_many = 3
+    many_side, few_side = draw(st.sampled_from([('tgt', 'src'), ('src', 'tgt')]))
+    deg_many = draw(st.sampled_from([[0, 1], [0, 1], [1], {'min': 0, 'max': 1}, {'min': 0, 'max': None}, [0, 1, 2]]))
+    rep_many = draw(st.booleans())
+    cc = {'id': 'k0', 'src': [], 'tgt': [], 'excl': []}
+    parents = draw(st.permutations(opts+['r']*(n_many)))[:n_many]
+    for j in range(n_many):
+        nm = f'{many_side[0]}0{j}'
+        nodes[nm] = {'k': 'conn', 'deg': deg_many, 'rep': rep_many}
+        edges.append([parents[j], nm])
+        cc[many_side].append(nm)
+    for j in range(draw(ints(1, 2))):
+        nm = f'{few_side[0]}0{j}'
+        nodes[nm] = {'k': 'conn', 'deg': draw(st.sampled_from([[1], [1], [0, 1], [1, 2], {'min': 1, 'max': None}])),
+                     'rep': draw(st.booleans())}
+        edges.append(['r', nm])
+        cc[few_side].append(nm)
+    for _ in range(draw(ints(1, 2))):
+        pair = [draw(st.sampled_from(cc['src'])), draw(st.sampled_from(cc['tgt']))]
+        if pair not in cc['excl']:
+            cc['excl'].append(pair)
+    return {'salt': draw(st.sampled_from([0, 0, 1, 3])), 'nodes': nodes, 'edges': edges, 'choices': choices,
+            'incompat': [], 'start': ['r'], 'conns': [cc], 'cons': []}
+
+
 def gen_nodes(spec):
     return [n for n, nd in spec['nodes'].items() if nd['k'] == 'gen']
 
@@ -317,10 +354,14 @@ def add_conns(draw, spec, max_choices=2, max_side=3, allow_grp=True, small=False
         for side in ('src', 'tgt'):
             n_side = draw(ints(1, 2 if small else max_side))
             conn_names = []
+            # interchangeable connectors (same degree specification and repeat flag) in a third of the cases: existence
+            # patterns then differ only in WHICH of them exist
+            same = draw(ints(0, 2)) == 0
+            same_deg, same_rep = draw(st.sampled_from(alphabet)), draw(st.booleans())
             for j in range(n_side):
                 nm = f'{side[0]}{i_cc}{j}'
-                spec['nodes'][nm] = {'k': 'conn', 'deg': draw(st.sampled_from(alphabet)),
-                                     'rep': draw(st.booleans())}
+                spec['nodes'][nm] = {'k': 'conn', 'deg': same_deg if same else draw(st.sampled_from(alphabet)),
+                                     'rep': same_rep if same else draw(st.booleans())}
                 # bias towards permanent parents (start nodes) so that not everything is conditional
                 parent = draw(st.sampled_from(gens+spec['start']*start_bias))
                 spec['edges'].append([parent, nm])
